@@ -276,6 +276,24 @@ func execOne(path, prop string) int {
 	return 0
 }
 
+// startWithRetry starts a child process, retrying a few times when the system
+// is momentarily out of process slots or memory (EAGAIN / ENOMEM under heavy
+// load): a transient resource shortage must not turn into a verdict.
+func startWithRetry(cmd *exec.Cmd) error {
+	var err error
+	for attempt := 0; attempt < 8; attempt++ {
+		if err = cmd.Start(); err == nil {
+			return nil
+		}
+		// exec.Cmd cannot be started twice: rebuild it
+		c2 := exec.Command(cmd.Path, cmd.Args[1:]...)
+		c2.Env, c2.Dir, c2.Stdin, c2.Stdout, c2.Stderr = cmd.Env, cmd.Dir, cmd.Stdin, cmd.Stdout, cmd.Stderr
+		*cmd = *c2
+		time.Sleep(time.Duration(200*(attempt+1)) * time.Millisecond)
+	}
+	return err
+}
+
 // isolatedRunner is set by worlds that need their own process environment
 // (W-CONC: GOMAXPROCS=1 + race log; W-MEM: address-space cap).
 var isolatedRunner = map[string]func(prop string, tr *Trace) *Result{}
@@ -487,7 +505,10 @@ func drive(ps *propSpec, tier string, seed uint64, evidencePath, replayDir, find
 				"-from", fmt.Sprint(from), "-to", fmt.Sprint(to), "-stride", fmt.Sprint(nworkers), "-budget", fmt.Sprint(budget))
 			var so, se bytes.Buffer
 			cmd.Stdout, cmd.Stderr = &so, &se
-			err := cmd.Run()
+			err := startWithRetry(cmd)
+			if err == nil {
+				err = cmd.Wait()
+			}
 			if err != nil {
 				ch <- wres{nil, fmt.Errorf("worker [%d,%d): %v\n%s", from, to, err, tail(se.String(), 4000))}
 				return
